@@ -363,3 +363,98 @@ Proof.
     set (r := sqrt (PI / q)) in *.
     rewrite E1, E2, E3. ring.
 Qed.
+
+(* ------------------------------------------------------------------ *)
+(* 5. (iv) the substitution t = u / sqrt(p + u^2)                      *)
+(* ------------------------------------------------------------------ *)
+Definition tau (p u : R) : R := u / sqrt (p + u ^ 2).
+Definition dtau (p u : R) : R := p / ((p + u ^ 2) * sqrt (p + u ^ 2)).
+
+Lemma q_pos p u : 0 < p -> 0 < p + u ^ 2.
+Proof. intro Hp. pose proof (pow2_ge_0 u). lra. Qed.
+
+Lemma tau_0 p : tau p 0 = 0.
+Proof. unfold tau, Rdiv. ring. Qed.
+
+Lemma tau_sq p u : 0 < p -> tau p u ^ 2 = u ^ 2 / (p + u ^ 2).
+Proof.
+  intro Hp. pose proof (q_pos p u Hp) as Hq. assert (Hs : 0 < sqrt (p + u ^ 2)) by now apply sqrt_lt_R0.
+  pose proof (sqrt_sqrt (p + u ^ 2) (Rlt_le _ _ Hq)) as Hr. unfold tau.
+  set (r := sqrt (p + u ^ 2)) in *. rewrite <- Hr. field. lra.
+Qed.
+
+(* dt/du = p (p + u^2)^{-3/2} *)
+Lemma tau_derive p u : 0 < p -> is_derive (tau p) u (dtau p u).
+Proof.
+  intro Hp. pose proof (q_pos p u Hp) as Hq. assert (Hs : 0 < sqrt (p + u ^ 2)) by now apply sqrt_lt_R0.
+  pose proof (sqrt_sqrt (p + u ^ 2) (Rlt_le _ _ Hq)) as Hr.
+  unfold tau, dtau. auto_derive.
+  - replace (p + u * (u * 1)) with (p + u ^ 2) by ring. repeat split; lra.
+  - replace (p + u * (u * 1)) with (p + u ^ 2) by ring.
+    set (r := sqrt (p + u ^ 2)) in *.
+    assert (Hp' : p = r * r - u ^ 2) by lra. rewrite Hp'. field. lra.
+Qed.
+
+Lemma dtau_continuous p u : 0 < p -> continuous (dtau p) u.
+Proof.
+  intro Hp. pose proof (q_pos p u Hp) as Hq. assert (Hs : 0 < sqrt (p + u ^ 2)) by now apply sqrt_lt_R0.
+  apply (ex_derive_continuous (dtau p) u). unfold dtau. auto_derive.
+  replace (p + u * (u * 1)) with (p + u ^ 2) by ring. repeat split; try exact I; try lra.
+  apply Rgt_not_eq. now apply Rmult_lt_0_compat.
+Qed.
+
+(* 0 < tau < 1 and 1 - tau <= p / u^2 for u > 0 *)
+Lemma tau_bounds p u : 0 < p -> 0 < u -> 0 < tau p u < 1 /\ 1 - tau p u <= p / u ^ 2.
+Proof.
+  intros Hp Hu. pose proof (q_pos p u Hp) as Hq.
+  assert (Hs : 0 < sqrt (p + u ^ 2)) by now apply sqrt_lt_R0.
+  pose proof (sqrt_sqrt (p + u ^ 2) (Rlt_le _ _ Hq)) as Hr. unfold tau.
+  set (r := sqrt (p + u ^ 2)) in *.
+  assert (Hu2 : u ^ 2 = u * u) by ring.
+  assert (Hru : u < r) by nra.
+  assert (Hp' : p = r * r - u ^ 2) by lra.
+  split; [split|].
+  - now apply Rdiv_lt_0_compat.
+  - apply Rmult_lt_reg_r with r; [exact Hs|]. unfold Rdiv. rewrite Rmult_assoc, Rinv_l by lra. lra.
+  - replace (1 - u / r) with (p / (r * (r + u))) by (rewrite Hp'; field; split; lra).
+    unfold Rdiv. apply Rmult_le_compat_l; [lra|].
+    apply Rinv_le_contravar; [rewrite Hu2; now apply Rmult_lt_0_compat | nra].
+Qed.
+
+Lemma tau_lim p : 0 < p -> filterlim (tau p) (Rbar_locally p_infty) (locally 1).
+Proof.
+  intros Hp P [eps HP]. destruct eps as [e He]. cbn [pos] in HP.
+  exists (Rmax 1 (p / e)). intros U HU. apply HP.
+  assert (H1 : 1 < U) by (pose proof (Rmax_l 1 (p / e)); lra).
+  assert (H2 : p / e < U) by (pose proof (Rmax_r 1 (p / e)); lra).
+  destruct (tau_bounds p U Hp) as [[B0 B1] B2]; [lra|].
+  change (Rabs (tau p U - 1) < e). rewrite Rabs_left1 by lra.
+  apply Rle_lt_trans with (1 := (Req_le _ _ (Ropp_minus_distr _ _))).
+  apply Rle_lt_trans with (1 := B2).
+  assert (HU2 : 0 < U ^ 2) by (apply pow_lt; lra).
+  apply (proj2 (Rlt_div_l p e (U ^ 2) HU2)).
+  apply (proj1 (Rlt_div_l p U e He)) in H2. nra.
+Qed.
+
+(* change of variable on the half line: for every continuous g,
+     int_0^oo g(u / sqrt(p+u^2)) p (p+u^2)^{-3/2} du = int_0^1 g(t) dt *)
+Theorem hint_subst_tau (p : R) (g : R -> R) : 0 < p -> (forall t, continuous g t) ->
+  hint (fun u => dtau p u * g (tau p u)) (RInt g 0 1).
+Proof.
+  intros Hp Hg.
+  assert (Hex : forall a b, ex_RInt g a b).
+  { intros a b. apply (ex_RInt_continuous g a b). intros z _. apply Hg. }
+  set (Ig := fun z : R => RInt g 0 z).
+  assert (Hc : continuous Ig 1).
+  { apply (continuous_RInt_1 g 0 1 Ig). apply filter_forall. intro z. apply (RInt_correct g 0 z). apply Hex. }
+  assert (Hlim : filterlim (fun U => Ig (tau p U)) (Rbar_locally p_infty) (locally (Ig 1))).
+  { apply (filterlim_comp _ _ _ (tau p) Ig (Rbar_locally p_infty) (locally 1) (locally (Ig 1)));
+      [now apply tau_lim | exact Hc]. }
+  rewrite hint_spelled_out. intro eps.
+  destruct (Hlim (fun y => Rabs (y - Ig 1) < eps)) as [M HM].
+  { exists eps. intros y Hy. exact Hy. }
+  exists M. intros b Hb. exists (Ig (tau p b)). split; [|exact (HM b Hb)].
+  pose proof (is_RInt_comp g (tau p) (dtau p) 0 b) as H. rewrite tau_0 in H. apply H.
+  - intros x _. apply Hg.
+  - intros x _. split; [now apply tau_derive | now apply dtau_continuous].
+Qed.
